@@ -60,12 +60,19 @@ def one_case(args):
             defect = {"emoji_u1f6ff.svg": cli.simple_svg(3, color="var(--color1, red)"), "emoji_u1f6fe.svg": cli.simple_svg(4, color="var(--color1, blue)")}
         elif kind == "oversize-bitmap":
             extra_args = ["--bitmap_resolution", "300" if with_defect else "64"]
+        elif kind == "oversize-bitmap-256":
+            # exactly one pixel beyond what CBDT's 8-bit metrics hold: a 2:1 drawing rendered 128 px tall is 256 px wide (255 px still fits: the control)
+            wide = '<svg xmlns="http://www.w3.org/2000/svg" viewBox="0 0 {w} 100"><path d="M5,5 L150,5 L150,90 L5,90 Z" fill="#0000FF"/></svg>'
+            defect = {"emoji_u1f6ff.svg": wide.format(w=200)}
+            extra_args = ["--bitmap_resolution", "128"]
         if with_defect:
             files.update(defect)
         elif kind.startswith("bad-colour") or kind in ("bad-spread", "unparsable"):
             files.update({"emoji_u1f6ff.svg": GRAD.format(sm="pad") if kind == "bad-spread" else cli.simple_svg(3)})
         elif kind == "palette-conflict":
             files.update({"emoji_u1f6ff.svg": cli.simple_svg(3, color="var(--color1, red)"), "emoji_u1f6fe.svg": cli.simple_svg(4, color="var(--color2, blue)")})
+        elif kind == "oversize-bitmap-256":
+            files.update({"emoji_u1f6ff.svg": '<svg xmlns="http://www.w3.org/2000/svg" viewBox="0 0 199 100"><path d="M5,5 L150,5 L150,90 L5,90 Z" fill="#0000FF"/></svg>'})
         paths = cli.write_svgs(srcdir, files)
         # put the defective file(s) at the requested position of the argument list
         names = [p for p in paths if str(p.relative_to(srcdir)) in valid]
@@ -107,11 +114,11 @@ def one_case(args):
         shutil.rmtree(d, ignore_errors=True)
 
 
-KINDS = ["dup-glyph-name", "dup-file-name", "unparsable", "bad-colour", "bad-colour-7", "bad-colour-9", "bad-spread", "palette-conflict", "oversize-bitmap", "masters-disagree", "masters-disagree-extra", "masters-disagree-other"]
+KINDS = ["dup-glyph-name", "dup-file-name", "unparsable", "bad-colour", "bad-colour-7", "bad-colour-9", "bad-spread", "palette-conflict", "oversize-bitmap", "oversize-bitmap-256", "masters-disagree", "masters-disagree-extra", "masters-disagree-other"]
 
 
 def fmt_for(kind, rng):
-    if kind == "oversize-bitmap":
+    if kind in ("oversize-bitmap", "oversize-bitmap-256"):
         return "cbdt"
     if kind == "palette-conflict":
         return rng.choice(["glyf_colr_1", "glyf_colr_0"])
